@@ -1130,7 +1130,10 @@ struct Gen {
         int no = (int)g.below(3);
         for (int i = 0; i < no; i++) {
             std::string n;
-            do { n = std::string("OUT") + std::to_string(g.below(40)); } while (names.count(n));
+            do {
+                n = std::string("OUT") + std::to_string(g.below(40));
+                if (g.chance(15)) n = "OUTSIDE_" + nstring(30, 45);  // longer than every other string of the file
+            } while (names.count(n));
             names.insert(n);
             L.outside.push_back(n);
         }
@@ -1167,6 +1170,8 @@ struct Gen {
                 if (!r.quarter && r.q % (64 * 90) == 0) r.q += 1;
                 r.mag = g.chance(65) ? 1.0 : real_value(with_defect_classes && g.chance(15));
                 if (!(r.mag > 0)) r.mag = r.mag < 0 ? -r.mag : 2.0;
+                while (r.mag > 4096) r.mag /= 1024.0;  // keep magnified coordinates far inside the 64-bit grid
+                while (r.mag < 1.0 / 4096) r.mag *= 1024.0;
                 r.refl = g.coin();
                 r.rep = rep(30, with_defect_classes && g.chance(20));
                 r.props = props(20, with_defect_classes && g.chance(20));
